@@ -115,6 +115,9 @@ func (r *Run) store(p Ptr, v Value, t types.Type) {
 	if r.aliases != nil && !p.A.Box {
 		r.checkAliasWrite(p)
 	}
+	if r.frozen != nil {
+		r.checkFrozenWrite(p)
+	}
 	if r.local != nil {
 		root := p.A
 		for root.P != nil {
@@ -569,5 +572,26 @@ func (r *Run) checkAliasWrite(p Ptr) {
 			delete(r.aliases, p.A)
 			return
 		}
+	}
+}
+
+// checkFrozenWrite reports a store into memory the harness froze with vFreezeStrings: package-level
+// tables that every event shares. (Natively such a write is silent; it shows only through another
+// holder of the same backing array.)
+func (r *Run) checkFrozenWrite(p Ptr) {
+	for a := p.A; a != nil; a = a.P {
+		what, ok := r.frozen[a]
+		if !ok {
+			continue
+		}
+		label := r.E.Cfg.Prop + "/shared-table-written"
+		if r.E.labelActive(label) {
+			res, m := r.check(r.allVars())
+			if res == smt.Sat {
+				r.recordViolation(label, "store into the backing array of "+what+" (memory shared by every event)", m)
+			}
+		}
+		delete(r.frozen, a)
+		return
 	}
 }
